@@ -704,9 +704,13 @@ class Remoter(tyming.Tymee):
 
     def refresh(self):
         """
-        Restart tymer
+        Restart tymer at current tyme so that it expires .tymeout after the
+        latest activity
         """
-        self.tymer.restart()
+        if self.tymth:
+            self.tymer.start()  # from now, not from the old stop tyme
+        else:  # not wound so no current tyme
+            self.tymer.restart()
 
 
     def receive(self):
